@@ -20,6 +20,8 @@ FIXES = [
     ("5facb3b", ["C15"], '4-byte UTF-8 ranges of large classes accepted the whole plane of their lead byte: [\\x{10400}-\\x{10500}]+ matched U+10600'),
     ("cba9df1", ["C02", "C04"], 'ReverseInner took the match end from the first verified candidate: .*co[0-9]+ on "xco1 co2" returned [0 4] (regexp [0 8]); .*ERROR[0-9]+ on "xERROR123 and ERROR456" [0 9] (regexp [0 22])'),
     ("be63835", ["C02", "C04"], 'limited reverse search rejected an empty region: .*co.* on "co\\nco" returned [3 5] (regexp [0 2]), FindAll missed [0 2]'),
+    ("32e1f94", ["C02", "C04", "C19"], 'composite sequence DFA accepted cc{2,} and searched it as cc+: [a-z]{2,}[0-9]+ on "a1 ab1" returned [0 2], regexp [3 6]'),
+    ("34ebcaa", ["C03", "C10", "C14"], 'PikeVM copy-on-write captures leaked the writes of the preferred branch into the other branch: FindSubmatchIndex of (a)+c$ on "dac" gave [1 3 2 2], regexp [1 3 1 2]; PikeVM.SearchWithCaptures of (a)*c on "dac" gave [[1 3] [2 2]]'),
 ]
 for commit, props, what in FIXES:
     for p in props:
